@@ -7,8 +7,7 @@ import Mathlib.Tactic.NormNum
 /-!
 # Helper lemmas for C17 (Int64 / Modf)
 -/
-namespace Apd
-
+namespace Apd.C17L
 /-! ## wrap64 -/
 
 theorem wrap64_id (z : Int) (h1 : -2 ^ 63 ≤ z) (h2 : z < 2 ^ 63) : wrap64 z = z := by
@@ -76,4 +75,4 @@ theorem cmp_intExp (neg : Bool) (E : Int) (C : Nat) (yneg : Bool) (Y : Nat) (hE 
     cases neg <;> cases yneg <;> simp [Dec.sign, cmpInt, cmpNat, sval, hYne, hC] <;>
       split_ifs <;> omega
 
-end Apd
+end Apd.C17L
